@@ -92,6 +92,16 @@ REWRITES = {
     "lookup_cloned": ("re", r"doc\.table\.lookup\(&name\.value\)\.cloned\(\)", "option_cloned(doc.table.lookup(&name.value))", "Option<&T>::cloned -> shim; derived Clone of GlobalEntry is structural (R1)"),
     "opt_datatype_ne": ("re", r"\bt\.data_type != v\.data_type\b", "!opt_datatype_eq(&t.data_type, &v.data_type)", "derived PartialEq of Option<DataType> written as the structural comparison it resolves to (R1)"),
     "map_entry_from": ("re", r"\.map\(Entry::from\)", ".map(|e_| Entry::from(e_))", "a function path passed to Option::map written as the closure it denotes (eta expansion, R14)"),
+    "proc_statements_loop": ("re", r"(?s)proc\.statements\s*\.iter_mut\(\)\s*\.for_each\(\|stmt\| stmt\.analyze\(lookup_table\)\)", "analyze_statements_loop(&mut proc.statements, lookup_table)", "R13: the loop over the statements of a procedure body -> call of an external function with the loop's contract (every statement analysed in place with that table)"),
+    "range_ne": ("re", r"\bproc_entry\.range != range\b", "!range_eq(&proc_entry.range, &range)", "Range != Range -> shim (PartialEq for Range<usize> has no vstd spec)"),
+    "procs_filter_map_find": ("re", r"(?s)program\s*\.global_declarations\s*\.iter\(\)\s*\.filter_map\((\|gd\| match gd\.as_ref\(\) \{.*?\})\)\s*\.find\((\|\(pd, _\)\| \{.*?\})\)", r"filter_map_find(&program.global_declarations, \1, \2)", "xs.iter().filter_map(f).find(p) -> shim with the same std body (R8): the first Some result of f that satisfies p"),
+    "find_vars_closure_to_call": ("re", r"(?s)\.map_or_else\(Vec::new, \|\(pd, offset\)\| \{.*\}\)\s*\}\s*$", ".map_or_else(Vec::new, |(pd, offset)| find_vars_in_proc(pd, offset, name))\n}", "R13 for a closure: the per-procedure closure of find_vars, verified separately as the lifted `find_vars_in_proc`, is replaced inside its enclosing function by a call of that function"),
+    "string_eq_proc_name": ("re", r"\bident\.value == proc_name\b", "string_eq_str(&ident.value, proc_name)", "String == &str (PartialEq<&str> for String) has no vstd spec"),
+    "pd_tuple_param_to_let": ("re", r"\|\(pd, _\)\|\s*\{", "|pd_| { let (pd, _) = pd_;", "Verus closures take variables, not patterns: the tuple pattern of the parameter becomes a let binding at the start of the body"),
+    "find_procs_closure_to_call": ("re", r"(?s)\.flat_map\(\|\(pd, offset\)\| \{.*\}\)\s*\.collect\(\)\s*\}\s*$", ".flat_map(|(pd, offset)| find_procs_in_proc(pd, offset, name))\n        .collect()\n}", "R13 for a closure: the per-procedure closure of find_procs, verified separately as the lifted `find_procs_in_proc`, is replaced inside its enclosing function by a call of that function"),
+    "procs_filter_map_flat_map": ("re", r"(?s)program\s*\.global_declarations\s*\.iter\(\)\s*\.filter_map\((\|gd\| match gd\.as_ref\(\) \{.*?\})\)\s*\.flat_map\((\|\(pd, offset\)\| find_procs_in_proc\(pd, offset, name\))\)\s*\.collect\(\)", r"filter_map_flat_map_collect(&program.global_declarations, \1, |pd_offset| { let (pd, offset) = pd_offset; find_procs_in_proc(pd, offset, name) })", "xs.iter().filter_map(f).flat_map(g).collect() -> shim with the same std body (R8)"),
+    "filter_map_filter_collect": ("re", r"(?s)(pd\s*\.\w+)\s*\.iter\(\)\s*\.filter_map\((\|\w+\| match \w+\.as_ref\(\) \{.*?\n\s*\})\)\s*\.filter\((\|ident\| [^\n]*?)\)\s*\.collect\(\)", r"filter_map_filter_collect(&\1, \2, \3)", "xs.iter().filter_map(f).filter(p).collect() -> shim with the same std body (R8)"),
+    "find_types_closure_to_call": ("re", r"(?s)\.flat_map\(\|gd\| \{.*\}\)\s*\.collect\(\)\s*\}\s*$", ".flat_map(|gd| find_types_in_decl(gd, name))\n        .collect()\n}", "R13 for a closure: the per-declaration closure of find_types, verified separately as the lifted `find_types_in_decl`, is replaced inside its enclosing function by a call of that function"),
     "box_as_ref": ("re", r"\bboxed\.as_ref\(\)", r"&**boxed", "Box::as_ref on &Box<T> replaced by its std body `&**self` (no vstd spec; generic over the allocator)"),
     "self_name_clone_to_callee": ("re", r"self\.name\.value\.clone\(\)", r"string_clone(&callee.value)", "captured field path `self.name` of the lifted loop body becomes the parameter `callee` (R6); String::clone -> shim"),
     "ref_ne": ("re", r"\barg_type != param_type\b", r"!datatype_eq(arg_type, param_type)", "`!=` on two `&DataType` (PartialEq for references) written as the derived comparison it resolves to"),
@@ -457,7 +467,7 @@ def apply_rewrite(name, text):
                     depth -= 1
                 c += 1
             default, clo = args[:c].strip(), args[c + 1:].strip().rstrip(",").strip()
-            cm = re.match(r"\|\s*(\w+)\s*\|\s*(.*)$", clo, re.S)
+            cm = re.match(r"\|\s*(\w+|\([\w\s,]+\))\s*\|\s*(.*)$", clo, re.S)
             if not cm:
                 pos = k
                 continue
